@@ -872,3 +872,22 @@ lemma('C01.closure.sign', props=['C01'], spec_env=ENV,
       assumes=["is_numeric_ttype(col.ttype)", "col.nn > 0", "disc_min(col, K)", "disc_max(col, K)",
                "disc_sign(col, K)", "'sign' in K"],
       proves=[('verifies', "spec_sign(col, v)")])
+
+
+# ---------------------------------------------------------------------------
+# database flavour of types_compatible (C08): equal Python type, int == long
+# ---------------------------------------------------------------------------
+DBC = 'tdda/constraints/db/constraints.py::'
+
+
+@Builtin
+def _same_static_type(it, x, y):
+    tx = x.pytype if isinstance(x, Sym) else type(x)
+    ty = y.pytype if isinstance(y, Sym) else type(y)
+    return tx is ty
+
+
+contract(DBC + 'types_compatible', props=['C08'],
+         params=dict(x=T.scalar, y=T.scalar, colname=T.opt(T.str)),
+         spec_env=dict(ENV, same_static_type=_same_static_type), result=T.bool,
+         ensures=[('exact-type-compatibility', 'result == same_static_type(x, y)')])
